@@ -166,7 +166,7 @@ var (
 	fVol  = FeatSpec{Kind: "custom", Space: "urn:x:vol", Local: "v", Neg: true}
 	fVol2 = FeatSpec{Kind: "custom", Space: "urn:x:vol2", Local: "w", Neg: true}
 	// a feature whose List fails
-	fListErr = FeatSpec{Kind: "custom", Space: "urn:x:lerr", Local: "l", Neg: true, LErr: true}
+	fListErr = FeatSpec{Kind: "custom", Space: "urn:x:lerr", Local: "l", Neg: true, LErr: true, LMessy: true}
 )
 
 // Scenarios returns the handshakes the enumeration runs over.
@@ -279,6 +279,59 @@ func Scenarios() []*Scenario {
 		Clear: Stream{srvHeader("1.0", true), featuresSeg(false, advStartTLS(0, false)), tlsFailure(0)}})
 	add(&Scenario{Name: "init-bad-header", Entry: "initiator/bad-header", Neg: "std",
 		Clear: Stream{srvHeader("0.9", false), emptyFeatures(false)}})
+
+	// ---- a List step (receiver) / Parse step (initiator) that fails by itself, without any
+	// connection fault, for a voluntary and for a required feature, before and after a feature
+	// that could complete the session, with both negotiators
+	for _, neg := range []string{"std", "ws"} {
+		ws := neg == "ws"
+		for _, req := range []bool{false, true} {
+			for _, first := range []bool{true, false} {
+				tag := fmt.Sprintf("%s-%s-%s", neg, map[bool]string{false: "voluntary", true: "required"}[req], map[bool]string{true: "first", false: "last"}[first])
+				bad := FeatSpec{Kind: "custom", Space: "urn:x:bad", Local: "b", Neg: true, LReq: req, LErr: true}
+				feats, iBad, iOK := []FeatSpec{bad, fReady}, 0, 1
+				if !first {
+					feats, iBad, iOK = []FeatSpec{fReady, bad}, 1, 0
+				}
+				hdrC, hdrS := cliHeader(), srvHeader("1.0", true)
+				if ws {
+					hdrC, hdrS = wsCliOpen(), wsSrvOpen()
+				}
+				add(&Scenario{Name: "recv-list-fails-" + tag, Entry: map[bool]string{false: "receiver", true: "ws-receiver"}[ws] + "/failing-list", Neg: neg, Recv: true, Feats: feats,
+					Outs:  map[int][]SVal{iOK: {{K: "out", Mask: bReady}}},
+					Clear: Stream{hdrC, reqCustom(iOK, fReady)}})
+				// the initiator's features: Parse of the advertisement of bad fails (perr)
+				pfeats := make([]FeatSpec, len(feats))
+				copy(pfeats, feats)
+				pfeats[iBad].LErr = false
+				adv := [][]Unit{advCustom(iBad, bad, req, true), advCustom(iOK, fReady, true, false)}
+				if !first {
+					adv = [][]Unit{advCustom(iOK, fReady, true, false), advCustom(iBad, bad, req, true)}
+				}
+				add(&Scenario{Name: "init-parse-fails-" + tag, Entry: map[bool]string{false: "initiator", true: "ws-initiator"}[ws] + "/failing-parse", Neg: neg, Feats: pfeats,
+					Outs:  map[int][]SVal{iOK: {{K: "out", Mask: bReady}}},
+					Clear: Stream{hdrS, featuresSeg(ws, adv...)}})
+			}
+		}
+	}
+
+	// ---- features.go's current rules: a feature whose prerequisites do not hold when the list is
+	// read is still cached and becomes negotiable once another feature of the list has set the
+	// bit it needs; the Ready bit of a voluntary feature takes effect at the end of the list only
+	fNeedsAuthn := FeatSpec{Kind: "custom", Space: "urn:x:late", Local: "t", Neg: true, Nec: bAuthn}
+	fGivesAuthn := FeatSpec{Kind: "custom", Space: "urn:x:early", Local: "e", Neg: true}
+	add(&Scenario{Name: "init-late-prerequisite", Entry: "initiator/prerequisite-met-later", Neg: "std", WantOK: true, Feats: []FeatSpec{fNeedsAuthn, fGivesAuthn},
+		Outs:  map[int][]SVal{0: {{K: "out", Mask: bReady}}, 1: {{K: "out", Mask: bAuthn}}},
+		Clear: Stream{srvHeader("1.0", true), featuresSeg(false, advCustom(0, fNeedsAuthn, true, false), advCustom(1, fGivesAuthn, false, false))}})
+	add(&Scenario{Name: "init-none-allowed", Entry: "initiator/nothing-negotiable", Neg: "std", Feats: []FeatSpec{fNeedsAuthn},
+		Clear: Stream{srvHeader("1.0", true), featuresSeg(false, advCustom(0, fNeedsAuthn, true, false))}})
+	add(&Scenario{Name: "init-volready-then-ok", Entry: "initiator/voluntary-reports-ready", Neg: "std", WantOK: true, Feats: []FeatSpec{fVol, fVol2},
+		Outs:  map[int][]SVal{0: {{K: "out", Mask: bReady}}, 1: {{K: "out", Mask: bAuthn}}},
+		Clear: Stream{srvHeader("1.0", true), featuresSeg(false, advCustom(0, fVol, false, false), advCustom(1, fVol2, true, false))}})
+	add(&Scenario{Name: "recv-volready-then-required", Entry: "receiver/voluntary-reports-ready", Neg: "std", Recv: true, WantOK: true,
+		Feats: []FeatSpec{fVol, FeatSpec{Kind: "custom", Space: "urn:x:req", Local: "q", Neg: true, LReq: true}},
+		Outs:  map[int][]SVal{0: {{K: "out", Mask: bReady}}, 1: {{K: "out"}}},
+		Clear: Stream{cliHeader(), reqCustom(0, fVol), SegOf(SC("<q xmlns='urn:x:req'/>", kSel(1, "ECustom")))}})
 
 	// ---- a multi-step SASL mechanism (scripted): challenge/response loops under faults
 	more, last := SVal{K: "step", More: true}, SVal{K: "step"}
